@@ -686,6 +686,183 @@ Definition atoi (l : bytes) : option nat :=
 Definition real_decode_scan_cursor (key : bytes) : outcome (bytes * mcursor) := decode_scan_cursor b64dec atoi key.
 Definition real_encode_mcursor (mc : mcursor) : bytes := encode_mcursor b64enc itoa mc.
 
+(* ---------- rockredis/fullscan.go + node/scan.go fullScanCommand: FULLSCAN ---------- *)
+(* FULLSCAN table:cursor type: every element (KV: every key) of every key of that type in the table, grouped by
+   key; the cursor text is base64(stored key) ':' base64(element cursor). Modelled for the local-deletion
+   policy (the stored key of a collection is the key itself: decodeFromVersionKey is the identity) and without
+   values: an item is (key, element name); for KV the element name is empty, for a list it is the 8-byte
+   sequence number. The merge over partitions (server doMergeFullScan) is not modelled. *)
+
+(* getFullScanDataStoreType *)
+Definition fs_store_type (d : dtype) : N :=
+  match d with
+  | KV => kv_type
+  | LIST => list_type
+  | HASH => hash_type
+  | SET => set_type
+  | ZSET => zset_type
+  end.
+
+(* encodeDataTablePrefixToBuf for any data type: KV has no table length *)
+Definition data_table_prefix (dt : N) (table : bytes) : bytes :=
+  dt :: (if dt =? kv_type then [] else be16 (length table)) ++ table ++ [table_start_sep].
+
+(* binary.BigEndian.PutUint64 of a small non-negative number *)
+Definition be64 (v : N) : bytes :=
+  [(v / 72057594037927936) mod 256; (v / 281474976710656) mod 256; (v / 1099511627776) mod 256;
+   (v / 4294967296) mod 256; (v / 16777216) mod 256; (v / 65536) mod 256; (v / 256) mod 256; v mod 256].
+
+(* decodeFullScanCursor: (stored key, element cursor) *)
+Definition decode_fs_cursor (rk : bytes) : outcome (bytes * bytes) :=
+  match index_of key_sep rk with
+  | None => Ok (rk, [])
+  | Some O => Ok (rk, [])
+  | Some i =>
+      match b64dec (firstn i rk), b64dec (skipn (S i) rk) with
+      | Some k, Some c => Ok (k, c)
+      | _, _ => Err
+      end
+  end.
+(* encodeFullScanCursor *)
+Definition encode_fs_cursor (key cursor : bytes) : bytes := b64enc key ++ key_sep :: b64enc cursor.
+
+(* encodeFullScanMinKey / encodeFullScanKey: the engine key to continue after *)
+Definition encode_fs_key (dt : N) (table key cursor : bytes) : outcome bytes :=
+  if dt =? kv_type then Ok (encode_kv_key (table ++ table_start_sep :: key))
+  else if dt =? list_type then
+    match cursor with
+    | [] => Ok (data_table_prefix dt table ++ be16 (length key) ++ key ++ be64 list_min_seq)
+    | _ => if (length cursor =? 8)%nat
+           then Ok (data_table_prefix dt table ++ be16 (length key) ++ key ++ cursor)   (* Int64 then PutUint64 *)
+           else Err
+    end
+  else if is_coll_type dt then Ok (coll_key dt table key cursor)
+  else Err.
+
+(* lDecodeListKey: (key, the 8 bytes of the sequence number) *)
+Definition decode_list_key (ek : bytes) : outcome (bytes * bytes) :=
+  match decode_table_prefix ek list_type with
+  | Err => Err
+  | Panic => Panic
+  | Ok (_, r) =>
+      match r with
+      | h :: l :: r2 =>
+          let n := N.to_nat (h * 256 + l) in
+          if negb (length r2 =? n + 8)%nat then Err else Ok (firstn n r2, skipn n r2)
+      | _ => Err
+      end
+  end.
+
+(* the item functions of kv/hash/list/set/zsetFullScan: (key as matched and returned, stored key, element cursor) *)
+Definition decode_fs_item (dt : N) (ek : bytes) : outcome (bytes * bytes) :=
+  if dt =? kv_type then match decode_kv_key ek with Ok raw => Ok (raw, []) | Err => Err | Panic => Panic end
+  else if dt =? list_type then decode_list_key ek
+  else match decode_coll_sub_key ek with
+       | Ok (dt', _, key, sub) => if dt' =? dt then Ok (key, sub) else Err
+       | Err => Err
+       | Panic => Panic
+       end.
+
+Definition fs_item : Type := (bytes * bytes)%type.          (* key, element *)
+Definition fs_page : Type := (list fs_item * bytes)%type.   (* items in order, next cursor *)
+
+Section FullScan.
+  Variable compile : bytes -> option (bytes -> bool).
+
+  (* the loop of fullScanCommon: a decode error ends the call with that error; the pattern is matched against
+     the key; every element counts *)
+  Fixpoint fs_loop (valid : bytes -> bool) (dt : N) (m : bytes -> bool) (cur : list bytes) (n : nat)
+    : outcome (list fs_item) :=
+    match cur with
+    | [] => Ok []
+    | k :: r =>
+        match n with
+        | O => Ok []
+        | S n' =>
+            if valid k then
+              match decode_fs_item dt k with
+              | Ok (key, c) =>
+                  if m key then
+                    match fs_loop valid dt m r n' with
+                    | Ok l => Ok ((key, c) :: l)
+                    | e => e
+                    end
+                  else fs_loop valid dt m r n
+              | Err => Err
+              | Panic => Panic
+              end
+            else Ok []
+        end
+    end.
+
+  (* RockDB.FullScan -> fullScanCommon *)
+  Definition full_scan (db : list bytes) (d : dtype) (key : bytes) (count : Z) (pat : bytes) : outcome fs_page :=
+    let dt := fs_store_type d in
+    match matcher compile pat with
+    | None => Err
+    | Some m =>
+        match extract_table key with
+        | None => Err
+        | Some (table, rk) =>
+            let n := N.to_nat (check_scan_count count) in
+            match decode_fs_cursor rk with
+            | Err => Err
+            | Panic => Panic
+            | Ok (k, c) =>
+                match encode_fs_key dt table k c with
+                | Err => Err
+                | Panic => Panic
+                | Ok mn =>
+                    let mx := incr_last (data_table_prefix dt table) in
+                    match fs_loop (valid_fwd mx) dt m (fwd_open_start mn db) n with
+                    | Err => Err
+                    | Panic => Panic
+                    | Ok items =>
+                        if (length items <? n)%nat then Ok (items, [])
+                        else match last_opt items with
+                             | None => Ok (items, [])
+                             | Some (ikey, icur) =>
+                                 if dt =? kv_type
+                                 then match extract_table ikey with
+                                      | Some (_, r) => Ok (items, encode_fs_cursor r icur)
+                                      | None => Ok (items, encode_fs_cursor ikey icur)
+                                      end
+                                 else Ok (items, encode_fs_cursor ikey icur)
+                             end
+                    end
+                end
+            end
+        end
+    end.
+
+  (* node fullScanCommand: the cursor must contain the separator; COUNT clamped by parseScanArgs *)
+  Definition full_scan_command (db : list bytes) (d : dtype) (cursor pat : bytes) (count0 : Z) : outcome fs_page :=
+    match index_of key_sep cursor with
+    | None => Err
+    | Some _ => full_scan db d cursor (clamp_count count0) pat
+    end.
+
+  (* the client: table ':' cursor, until the cursor is empty *)
+  Fixpoint fs_iterate (fuel : nat) (call : bytes -> outcome fs_page) (cursor : bytes) : list fs_page * status :=
+    match fuel with
+    | O => ([], OutOfFuel)
+    | S f =>
+        match call cursor with
+        | Err => ([], Failed)
+        | Panic => ([], Faulted)
+        | Ok (items, next) =>
+            match next with
+            | [] => ([(items, next)], Done)
+            | _ => let '(ps, st) := fs_iterate f call next in ((items, next) :: ps, st)
+            end
+        end
+    end.
+
+  Definition iterate_fullscan (fuel : nat) (db : list bytes) (d : dtype) (table pat : bytes) (count : Z)
+    : list fs_page * status :=
+    fs_iterate fuel (fun c => full_scan_command db d (wrap_cursor table c) pat count) [].
+End FullScan.
+
 (* ---------- the pattern class the correspondence check generates: literals, '*', '?' ---------- *)
 Definition star : N := 42.
 Definition qmark : N := 63.
